@@ -9,7 +9,12 @@ Families
              arrays of the converter's published output spec (in range, out of
              range, extremes, soft / tied / flat / OOV-dominated one-hot
              blocks, OOV index) -> to_parameters -> independent membership
-             oracle (harness/spaces.member).
+             oracle (harness/spaces.member).  Secondary, from the docstrings
+             ("convert and clip to the nearest feasible value", should_clip):
+             a one-hot block with a unique largest valid entry decodes to that
+             value; with clipping a feature outside the range decodes to the
+             bound / extreme feasible value on that side; without clipping a
+             feature distinctly outside the range is not truncated.
   metrics    metric configurations x sign-flip flag x dtype x missing values:
              DefaultModelOutputConverter.convert / to_metrics and the
              whole-converter label paths (to_labels, to_xy -> to_trials).
@@ -55,14 +60,20 @@ ASSUMPTIONS = [
     'continuified INTEGER/DISCRETE values are required to come back exactly '
     'only when neighbouring feasible values are further apart than twice the '
     'accuracy granted to DOUBLE values in that dtype',
-    'with should_clip=False nothing is demanded of out-of-range features; an '
-    'OOV *index* feature decodes to "parameter absent" as documented',
+    'with should_clip=False membership is not demanded of out-of-range '
+    'features (only that they are not truncated); an OOV *index* feature '
+    'decodes to "parameter absent" as documented',
+    'a range that is degenerate in the carrier dtype is encoded as '
+    '0.5+(x-lo) (published output bounds (0.5,0.5)), so its round trip is '
+    'accurate to 4 eps of max(|lo|, 0.5)',
     'safety metrics are excluded from the label round trip (documented shift)',
 ]
 
-# Findings on the unchanged tree (see known_findings.d/C15.jsonl). They do not
-# blind the search (judged per point / per row), so the generators keep
-# producing their triggers; the flags only document the bucket names.
+# Findings on the unchanged tree (see known_findings.d/C15.jsonl, replays in
+# pinned/C15, patches in proposals/C15). They do not blind the search (every
+# point / row / parameter is judged separately), so the generators keep
+# producing their triggers; the shares are measured in the classes
+# reverse_log_cancellation, unscale_overflow and nearest_absorbed.
 KNOWN_REVERSE_LOG_CANCELLATION = 'unit/nonfinite/REVERSE_LOG_cancellation'
 KNOWN_OVERFLOW_DROPS_PARAM = 'decode/missing/unscale_overflow'
 KNOWN_NEAREST_ABSORBED = 'decode/nearest_lost_to_absorption'
@@ -887,7 +898,7 @@ def _judge_unclipped(out, p, m, y, dtype, scaled):
   ref = M.ref_value(p, f) if scaled else f
   if not (isinstance(y, float) and math.isfinite(y) and math.isfinite(ref)):
     return
-  if float(np_cast(lo, dtype)) == float(np_cast(hi, dtype)) and scaled:
+  if float(_np_cast(lo, dtype)) == float(_np_cast(hi, dtype)) and scaled:
     return
   if ref > hi + 4 * M.tol_value(p, hi, dtype, scaled) + 4 * M.eps_of(
       dtype) * abs(f) * abs(ref) and not y > hi:
@@ -903,7 +914,7 @@ def _judge_unclipped(out, p, m, y, dtype, scaled):
                     p['name'], lo, hi, f, ref, y))
 
 
-def np_cast(v, dtype):
+def _np_cast(v, dtype):
   import numpy as np
   return np.asarray(v, dtype=dtype)
 
